@@ -26,6 +26,8 @@ def free_list(kind, d):
     d = dict(d)
     if kind == 'objecttype' and d.get('prefix-radix') is None:
         d['prefix-radix'] = 10      # an omitted radix is radix 10
+    if kind == 'relation' and d.get('confidence') is None:
+        d['confidence'] = 10        # a relation created without a confidence has the default confidence
     return [[k, None if d.get(k) is None else str(d[k])] for k in FREE_KEYS[kind]]
 
 
@@ -34,6 +36,12 @@ def norm_spec(kind, s):
     s = copy.deepcopy(s)
     if kind == 'objecttype' and s['free'].get('prefix-radix') is None:
         s['free']['prefix-radix'] = 10
+    if kind == 'relation' and 'def' in s and s['def']['free'].get('confidence') is None:
+        s['def']['free']['confidence'] = 10
+    if kind == 'eventtype':
+        for r in s.get('relations', []):
+            if r['free'].get('confidence') is None:
+                r['free']['confidence'] = 10
     return s
 
 
@@ -64,9 +72,9 @@ def base_prop(name='p', ot='o.str'):
             'free': {'description': name, 'similar': '', 'confidence': 10}, 'assocs': []}
 
 
-def base_relation(source='p', target='q'):
+def base_relation(source='p', target='q', confidence=5):
     return {'source': source, 'target': target, 'sourceConcept': None, 'targetConcept': None, 'type': 'other',
-            'free': {'description': '[[%s]] relates to [[%s]]' % (source, target), 'predicate': 'relates to', 'confidence': 5}}
+            'free': {'description': '[[%s]] relates to [[%s]]' % (source, target), 'predicate': 'relates to', 'confidence': confidence}}
 
 
 def base_attachment(name='att'):
@@ -279,7 +287,10 @@ def mutate(rng, kind, d):
     def free_change():
         k = rng.choice(FREE_KEYS[kind])
         cur = d['free'][k]
-        if k in ('confidence',):
+        if k in ('confidence',) and kind == 'relation' and (cur is None or cur == 10):
+            # left out (the default of create_relation) or the default written out: the same definition
+            d['free'][k] = 10 if cur is None else rng.choice([None, None, 1])
+        elif k in ('confidence',):
             d['free'][k] = (cur % 10) + 1
         elif k == 'cnp':
             d['free'][k] = (cur + 1) % 256
